@@ -1149,22 +1149,32 @@ Proof.
   rewrite HL. apply (Hk r Hr). apply Sok_listids with (L := L1). exact H1.
 Qed.
 
-Definition lres (r : str * option item * reader) : Prop := rfree (fst (fst r)) /\ oitem (snd (fst r)) /\ rdok (snd r).
-Definition ilres (r : option item * reader * str * str) : Prop :=
-  let '(nx, rd, il, at') := r in oitem nx /\ rdok rd /\ rfree il /\ rfree at'.
+(* the next item handed back: a well-formed item whose marker is on the stack of open lists *)
+Definition onx (L : list str) (o : option item) : Prop := oitem o /\ forall it, o = Some it -> In (it_id it) L.
+Definition lres (L : list str) (r : str * option item * reader) : Prop := rfree (fst (fst r)) /\ onx L (snd (fst r)) /\ rdok (snd r).
+Definition ilres (L : list str) (r : option item * reader * str * str) : Prop :=
+  let '(nx, rd, il, at') := r in onx L nx /\ rdok rd /\ rfree il /\ rfree at'.
 
 Lemma oitem_none : oitem None.
 Proof. intros it H. discriminate. Qed.
-Lemma lres_intro out nx rd : rfree out -> oitem nx -> rdok rd -> lres (out, nx, rd).
+Lemma onx_none L : onx L None.
+Proof. split; [apply oitem_none|intros it H; discriminate]. Qed.
+Lemma lres_intro L out nx rd : rfree out -> onx L nx -> rdok rd -> lres L (out, nx, rd).
 Proof. intros. unfold lres. cbn. auto. Qed.
-Lemma ilres_intro nx rd il at' : oitem nx -> rdok rd -> rfree il -> rfree at' -> ilres (nx, rd, il, at').
+Lemma ilres_intro L nx rd il at' : onx L nx -> rdok rd -> rfree il -> rfree at' -> ilres L (nx, rd, il, at').
 Proof. intros. unfold ilres. auto. Qed.
 
-Definition P_list (n : nat) := forall L it rd, item_ok it -> rdok rd -> tokLL L L lres (renderList fuel doc n it rd).
-Definition P_items (n : nat) := forall L it rd, item_ok it -> rdok rd -> tokLL L L lres (renderItems fuel doc n it rd).
-Definition P_item (n : nat) := forall L it rd, item_ok it -> rdok rd -> tokLL L L lres (renderListItem fuel doc n it rd).
-Definition P_loop (n : nat) := forall L rd il at' dn, rdok rd -> rfree il -> rfree at' -> tokLL L L ilres (itemLoop fuel doc n rd il at' dn).
+Lemma mem_In' x l : mem x l = true -> In x l.
+Proof. unfold mem. intros H. apply existsb_exists in H as (y & Hy & E). apply str_eqb_eq in E. subst. exact Hy. Qed.
 
+Definition P_list (n : nat) := forall L it rd, item_ok it -> rdok rd -> tokLL L L (lres L) (renderList fuel doc n it rd).
+Definition P_items (n : nat) := forall L it rd, item_ok it -> rdok rd ->
+  tokLL (L ++ [it_id it]) (L ++ [it_id it]) (lres L) (renderItems fuel doc n it rd).
+Definition P_item (n : nat) := forall L it rd, item_ok it -> rdok rd -> tokLL L L (lres L) (renderListItem fuel doc n it rd).
+Definition P_loop (n : nat) := forall L rd il at' dn, rdok rd -> rfree il -> rfree at' -> tokLL L L (ilres L) (itemLoop fuel doc n rd il at' dn).
+
+(* the list fixpoint: reserved-free output, allowed failures only, the stack of open lists restored (push at the start of
+   renderList, pop at its end), and an item handed back to a caller carries the marker of a list that is still open *)
 Lemma lists_mutual : forall n, P_list n /\ P_items n /\ P_item n /\ P_loop n.
 Proof.
   induction n as [|n (IHl & IHs & IHi & IHo)].
@@ -1178,11 +1188,15 @@ Proof.
     eapply tokLL_seq; [apply pop_listid_ok|]. apply tok_ret, lres_intro; auto. rf.
   - (* renderItems *)
     intros L it rd Hit Hrd. cbn [renderItems].
-    eapply tok_bind; [apply IHi; assumption|]. intros [[out nx] rd'] (Hb & Hn & Hr). cbn [fst snd] in *.
-    destruct nx as [nx|]; [|apply tok_ret, lres_intro; auto using oitem_none].
-    destruct (str_eqb (it_id nx) (it_id it)); [|apply tok_ret, lres_intro; auto].
-    eapply tok_bind; [apply IHs; [apply Hn; reflexivity|exact Hr]|]. intros [[out2 nn] rd2] (Hb2 & Hn2 & Hr2). cbn [fst snd] in *.
-    apply tok_ret, lres_intro; auto. rf.
+    eapply tok_bind; [apply IHi; assumption|]. intros [[out nx] rd'] (Hb & [Hn Hin] & Hr). cbn [fst snd] in *.
+    destruct nx as [nx|]; [|apply tok_ret, lres_intro; auto using onx_none].
+    destruct (str_eqb (it_id nx) (it_id it)) eqn:Eid.
+    + apply str_eqb_eq in Eid. rewrite <- Eid.
+      eapply tok_bind; [apply IHs; [apply Hn; reflexivity|exact Hr]|]. intros [[out2 nn] rd2] (Hb2 & Hn2 & Hr2). cbn [fst snd] in *.
+      apply tok_ret, lres_intro; auto. rf.
+    + apply tok_ret, lres_intro; auto. split; [exact Hn|]. intros it' E. inversion E; subst it'.
+      specialize (Hin nx eq_refl). apply in_app_or in Hin as [Hin|[Hin|[]]]; [exact Hin|].
+      apply str_eqb_neq in Eid. congruence.
   - (* renderListItem *)
     intros L it rd Hit Hrd. cbn [renderListItem]. destruct Hit as (Hd & G & Hid & Htxt & Hterm). pose proof (proj1 Hd) as (H1 & H2 & H3 & H4 & H5 & H6).
     eapply tok_bind with (P := rfree).
@@ -1206,14 +1220,16 @@ Proof.
     eapply tok_bind; [apply consumeBlockAttributes_ok; [exact Hrd|apply allc_nil|lia]|].
     intros [[blanks out] rd1] (Hout & Hrd1 & Hne1). cbn [fst snd] in *.
     assert (Hat2 : rfree (at' ++ out)) by rf.
-    destruct ((2 <=? blanks)%Z || (blanks =? -1)%Z) eqn:Eb. { apply tok_ret, ilres_intro; auto using oitem_none. }
+    destruct ((2 <=? blanks)%Z || (blanks =? -1)%Z) eqn:Eb. { apply tok_ret, ilres_intro; auto using onx_none. }
     apply orb_false_iff in Eb as [_ Eb]. apply Z.eqb_neq in Eb. specialize (Hne1 Eb).
     eapply tok_bind; [apply matchItem_ok; exact Hrd1|]. intros [nx rd2] (Hn & Hrd2 & Hne2). cbn [fst snd] in *.
     destruct nx as [nx|].
-    + apply tok_bind_gets. intros s0 _. destruct (mem _ _). { apply tok_ret, ilres_intro; auto. }
+    + apply tok_bind_gets. intros s0 Hs0. destruct (mem _ _) eqn:Em.
+      { apply tok_ret, ilres_intro; auto. split; [exact Hn|]. intros it' E. inversion E; subst it'.
+        rewrite (so_listids _ _ Hs0) in Em. apply mem_In'. exact Em. }
       eapply tok_bind; [apply IHl; [apply Hn; reflexivity|exact Hrd2]|]. intros [[out2 nn] rd3] (Ho2 & Hn2 & Hr3). cbn [fst snd] in *.
       apply tok_ret, ilres_intro; auto. rf.
-    + specialize (Hne2 eq_refl Hne1). destruct dn. { apply tok_ret, ilres_intro; auto. }
+    + specialize (Hne2 eq_refl Hne1). destruct dn. { apply tok_ret, ilres_intro; auto using onx_none. }
       destruct (blanks =? 0)%Z.
       { eapply tok_saved; [apply dblocks_render_ok; [exact Hdoc|exact Hrd2|exact Hne2]|]. intros [o rd3] (Ho & Hrd3 & Hne3). cbn [fst snd] in *.
         destruct o as [out3|].
@@ -1224,7 +1240,7 @@ Proof.
       eapply tok_saved; [apply dblocks_render_ok; [exact Hdoc|exact Hrd2|exact Hne2]|]. intros [o rd3] (Ho & Hrd3 & Hne3). cbn [fst snd] in *.
       destruct o as [out3|].
       * apply IHo; [exact Hrd3|exact Hil|]. rf. apply Ho. reflexivity.
-      * apply tok_ret, ilres_intro; auto.
+      * apply tok_ret, ilres_intro; auto using onx_none.
 Qed.
 
 Lemma lists_render_ok n rd : rdok rd -> tokR (fun r => orf (fst r) /\ rdok (snd r) /\ (fst r = None -> rdne rd -> rdne (snd r))) (lists_render fuel doc n rd).
@@ -1328,3 +1344,38 @@ Proof. intros n src o s Ho Hs. pose proof (api_render_spec n src o s Ho Hs) as H
 (* the exceptions that can escape the API *)
 Theorem api_render_raises_only : forall n src o s e, opts_ok o -> Sok s -> api_render n src o s = Raise e -> blk_exn e.
 Proof. intros n src o s e Ho Hs H. pose proof (api_render_spec n src o s Ho Hs) as R. rewrite H in R. exact R. Qed.
+
+(* C10: the stack of open list markers.  renderList pushes the marker of its list and pops it when the list closes, whatever
+   is rendered in between (child lists, attached blocks with nested documents): it returns with the stack it was entered with;
+   and an item it hands back to its caller -- an item that does not belong to this list or a child -- carries the marker of a
+   list that is still open there (the "returns to an ancestor" rule); from the empty stack of lists.render nothing is handed back *)
+Theorem renderList_stack fuel m n L it rd s : SokG L s -> item_ok it -> rdok rd ->
+  match renderList fuel (doc_render m) n it rd s with
+  | Ok (r, s') => s_listids s' = L /\ (forall it', snd (fst r) = Some it' -> In (it_id it') L)
+  | _ => True
+  end.
+Proof.
+  intros Hs Hit Hrd.
+  pose proof (proj1 (lists_mutual fuel (doc_render m) (fun t _ => doc_render_ok m t) n) L it rd Hit Hrd s Hs) as H.
+  destruct (renderList fuel (doc_render m) n it rd s) as [[r s']|e|]; auto.
+  destruct H as [(_ & [_ Hin] & _) Hs']. split; [exact (so_listids _ _ Hs')|exact Hin].
+Qed.
+
+Corollary renderList_top fuel m n it rd s : SokG [] s -> item_ok it -> rdok rd ->
+  match renderList fuel (doc_render m) n it rd s with
+  | Ok (r, s') => s_listids s' = [] /\ snd (fst r) = None
+  | _ => True
+  end.
+Proof.
+  intros Hs Hit Hrd. pose proof (renderList_stack fuel m n [] it rd s Hs Hit Hrd) as H.
+  destruct (renderList fuel (doc_render m) n it rd s) as [[r s']|e|]; auto. destruct H as [H1 H2]. split; [exact H1|].
+  destruct (snd (fst r)) as [it'|]; [destruct (H2 it' eq_refl)|reflexivity].
+Qed.
+
+(* the items lists.matchItem produces are well-formed in the sense of the theorems above *)
+Lemma matchItem_items rd s : rdok rd ->
+  match matchItem rd s with Ok ((Some it, _), _) => item_ok it | _ => True end.
+Proof.
+  intros Hrd. unfold matchItem. destruct (matchItem_loop lists_defs rd) as [[o rd']|e|] eqn:E; cbn; try exact Logic.I.
+  destruct (matchItem_loop_ok _ _ _ lists_defs_ok Hrd E) as [Ho _]. destruct o as [it|]; [|exact Logic.I]. apply Ho. reflexivity.
+Qed.
